@@ -134,7 +134,18 @@ func (g *gateLogic) HandleScrape(ctx context.Context, req *bittorrent.ScrapeRequ
 	return g.inner.HandleScrape(ctx, req)
 }
 func (g *gateLogic) AfterScrape(ctx context.Context, req *bittorrent.ScrapeRequest, resp *bittorrent.ScrapeResponse) {
-	g.inner.AfterScrape(ctx, req, resp)
+	// the scrape's post-response hooks are gated like the announce's: Stop has to wait for them too
+	atomic.AddInt32(&g.inAfter, 1)
+	<-g.gate
+	func() {
+		defer func() {
+			if p := recover(); p != nil {
+				atomic.AddInt32(&g.panicked, 1)
+			}
+		}()
+		g.inner.AfterScrape(ctx, req, resp)
+	}()
+	atomic.AddInt32(&g.afterEnd, 1)
 }
 
 func freePort() int {
@@ -236,6 +247,9 @@ func lifeHTTPL(c *Ctx, scenario string, delayUs int, listeners string) {
 		if scenario != "immediate" {
 			// wait until it serves, then announce once
 			url := "http://" + addr + "/announce?info_hash=aaaaaaaaaaaaaaaaaaaa&peer_id=bbbbbbbbbbbbbbbbbbbb&port=6881&left=5&downloaded=0&uploaded=0"
+			if scenario == "gated-scrape" {
+				url = "http://" + addr + "/scrape?info_hash=aaaaaaaaaaaaaaaaaaaa"
+			}
 			if listeners == "https" {
 				url = "https://" + addrs[0] + "/announce?info_hash=aaaaaaaaaaaaaaaaaaaa&peer_id=bbbbbbbbbbbbbbbbbbbb&port=6881&left=5&downloaded=0&uploaded=0"
 			}
@@ -256,7 +270,7 @@ func lifeHTTPL(c *Ctx, scenario string, delayUs int, listeners string) {
 		}
 		res := fe.Stop()
 		early, errs := waitStop(res, 150*time.Millisecond)
-		stoppedWhileGated := early && scenario == "gated" && atomic.LoadInt32(&gl.inAfter) > atomic.LoadInt32(&gl.afterEnd)
+		stoppedWhileGated := early && strings.HasPrefix(scenario, "gated") && atomic.LoadInt32(&gl.inAfter) > atomic.LoadInt32(&gl.afterEnd)
 		if early {
 			stopStore() // as cmd/chihaya does once the frontends (and the logic) have stopped
 		}
@@ -341,6 +355,15 @@ func lifeUDP(c *Ctx, scenario string, delayUs int) {
 				_ = cl.SetReadDeadline(time.Now().Add(20 * time.Millisecond))
 				n, err := cl.Read(buf)
 				if err == nil && n == 16 {
+					if scenario == "gated-scrape" {
+						p := append(append([]byte{}, buf[8:16]...), 0, 0, 0, 2, 6, 6, 6, 6)
+						_, _ = cl.Write(append(p, []byte("aaaaaaaaaaaaaaaaaaaa")...))
+						_ = cl.SetReadDeadline(time.Now().Add(500 * time.Millisecond))
+						if n2, err2 := cl.Read(buf); err2 == nil && n2 >= 8 && binary.BigEndian.Uint32(buf[:4]) == 2 {
+							served++
+						}
+						break
+					}
 					_, _ = cl.Write(udpAnnouncePacket(buf[8:16]))
 					_ = cl.SetReadDeadline(time.Now().Add(500 * time.Millisecond))
 					if n2, err2 := cl.Read(buf); err2 == nil && n2 >= 20 && binary.BigEndian.Uint32(buf[:4]) == 1 {
@@ -355,7 +378,7 @@ func lifeUDP(c *Ctx, scenario string, delayUs int) {
 		}
 		res := fe.Stop()
 		early, errs := waitStop(res, 150*time.Millisecond)
-		stoppedWhileGated := early && scenario == "gated" && atomic.LoadInt32(&gl.inAfter) > atomic.LoadInt32(&gl.afterEnd)
+		stoppedWhileGated := early && strings.HasPrefix(scenario, "gated") && atomic.LoadInt32(&gl.inAfter) > atomic.LoadInt32(&gl.afterEnd)
 		if early {
 			stopStore() // as cmd/chihaya does once the frontends (and the logic) have stopped
 		}
@@ -491,6 +514,8 @@ func runC16(c *Ctx) {
 		lifeHTTP(c, "gated", 0)
 		lifeHTTPL(c, []string{"immediate", "gated", "traffic"}[i%3], 0, []string{"both", "https"}[(i/3)%2])
 		lifeUDP(c, "gated", 0)
+		lifeUDP(c, "gated-scrape", 0)
+		lifeHTTP(c, "gated-scrape", 0)
 		lifeHTTP(c, "traffic", 0)
 		lifeUDP(c, "traffic", 0)
 		lifeReload(c, 1+r.Intn(6))
